@@ -8,6 +8,29 @@ from lib import vfmt
 
 # ------------------------------------------------------------------ script generation
 def gen_script(rng, tier, focus=None):
+    if focus == 'edge':
+        # deadlines that fall a few milliseconds after the moment a hop lets the request through (a connect finishing,
+        # a pooled connection coming back, the client's open completing): the window in which a timer that fires
+        # early, or a hop that checks late, shows
+        v = rng.choice(['connect', 'connect', 'queue', 'preopen'])
+        d = rng.choice([20, 30, 40])
+        near = lambda: d + rng.randrange(1, 10)
+        if v == 'connect':       # every call has to bring up its own connection, which takes d
+            steps = [['srv', 0, rng.choice(['echo', 'delay', 'hold']), 5], ['adv', d + 50]]
+            for _ in range(rng.choice([1, 2])):
+                steps += [['call', near()], ['call', near()], ['adv', d + 60]]
+            return {'stack': 'thrift', 'neps': 1, 'open_delay': d, 'pool': [0, 2, 100], 'steps': steps + [['adv', 200]],
+                    'aged': False}
+        if v == 'queue':         # one connection; the reply that frees it arrives d after the first call was written
+            steps = [['srv', 0, 'delay', d], ['adv', 50], ['call', 300]]
+            steps += [['call', near()] for _ in range(rng.choice([1, 2]))]
+            return {'stack': 'thrift', 'neps': 1, 'open_delay': 0, 'pool': [1, 1, 100],
+                    'steps': steps + [['adv', d + 60], ['adv', 300]], 'aged': False}
+        steps = [['srv', 0, rng.choice(['echo', 'delay']), 5]]
+        steps += [['call', near()] for _ in range(rng.choice([1, 2, 3]))]
+        steps += [['call', d - rng.randrange(1, 10)], ['adv', 1], ['adv', d], ['adv', 200]]
+        return {'stack': rng.choice(['thrift', 'mux']), 'neps': 1, 'open_delay': d, 'pool': None, 'steps': steps,
+                'aged': False}
     if focus == 'aged':
         # a long-lived multiplexed connection (see 'aged' below) with several calls in flight together: small and
         # three-byte tags side by side, replies held back and released in either order, some calls timing out on the wire
